@@ -152,7 +152,7 @@ theorem parse_ok : (e : Expr) → PECanon e = true → AtomsOK e = true → ∀ 
           simp only [regexFirstOK, hfa, if_true, decide_eq_true_eq] at hrok
           simp only [hre, printCtx, if_true, hrok, List.cons_append, List.nil_append]
           rw [peLoop_step_regex g _ op s _ hop hre, ← hfa, hFl, hcont, hfuel]
-        | _ => simp [hfa] at hfr
+        | _ => simp [hfa, Expr.isRegex] at hfr
       · have hre' : isRegexOp op = false := by simpa using hre
         simp only [hre', Bool.false_eq_true, if_false] at hctx
         by_cases hin : isInOp op = true
@@ -168,7 +168,7 @@ theorem parse_ok : (e : Expr) → PECanon e = true → AtomsOK e = true → ∀ 
             rw [hFl]
             have : g + 1 = f - (nops l + 1 + nops (.set vals)) := by simp only [nops]; omega
             rw [this]
-          | _ => simp at hctx
+          | _ => simp [Expr.isSet] at hctx
         · have hin' : isInOp op = false := by simpa using hin
           simp only [hin', Bool.false_eq_true, if_false, Bool.and_eq_true] at hctx
           obtain ⟨hrr, hsr'⟩ := hctx
